@@ -20,6 +20,10 @@ type c17Tree struct {
 	Root    string            // the configured root
 	Inside  map[string]string // relative path under root -> content
 	Outside map[string]string // path relative to Base -> content (each with a canary)
+	// a second root: the dot-directory Root/.pub, with a decoy directory Root/pub next to it whose
+	// files have the same names and carry canaries (nothing in the request grammar spells "pub")
+	AltRoot   string
+	AltInside map[string]string
 }
 
 var (
@@ -60,6 +64,20 @@ func c17Setup(workDir string) (*c17Tree, error) {
 			return
 		}
 		if err := write(base, t.Outside); err != nil {
+			c17Err = err
+			return
+		}
+		t.AltRoot, t.AltInside = filepath.Join(t.Root, ".pub"), map[string]string{}
+		decoy := map[string]string{}
+		for i, f := range []string{"a.css", "c.txt", "sub/b.js", "index.html"} {
+			t.AltInside[f] = "INSIDE-DOT-PUB[" + f + "] some bytes of this file\n"
+			decoy[f] = fmt.Sprintf("%s-decoy-%d content of pub/%s\n", c17Canary, i, f)
+		}
+		if err := write(t.AltRoot, t.AltInside); err != nil {
+			c17Err = err
+			return
+		}
+		if err := write(filepath.Join(t.Root, "pub"), decoy); err != nil {
 			c17Err = err
 			return
 		}
@@ -125,9 +143,12 @@ func runC17(e *Env) {
 		e.Inconclusive("cannot chdir into the sandbox root: %v", err)
 		return
 	}
-	insideByContent := map[string]string{}
+	mainByContent, altByContent := map[string]string{}, map[string]string{}
 	for f, c := range tree.Inside {
-		insideByContent[c] = f
+		mainByContent[c] = f
+	}
+	for f, c := range tree.AltInside {
+		altByContent[c] = f
 	}
 	e.RunCases("requests", e.N(20000, 4000000), 0, func(t *T) {
 		r := t.R
@@ -146,6 +167,13 @@ func runC17(e *Env) {
 		staticFileTarget := "c.txt"
 		// the root spelled absolutely or relative to the working directory (= the sandbox root)
 		rootSpelling := pick(r, []string{tree.Root, tree.Root, "", ".", "./"})
+		rootAbs, inside, insideByContent, relDir := tree.Root, tree.Inside, mainByContent, ""
+		if chance(r, 1, 5) {
+			// the dot-directory root, spelled absolutely or relative to the working directory
+			rootAbs, inside, insideByContent, relDir = tree.AltRoot, tree.AltInside, altByContent, ".pub/"
+			rootSpelling = pick(r, []string{tree.AltRoot, ".pub", ".pub", "./.pub", ".pub/"})
+			t.Count("requests.dot_directory_root", 1)
+		}
 		inGroup := chance(r, 1, 5) && (kind == "StaticFiles" || kind == "StaticFile")
 		regPrefix := prefix
 		reg := func(f func()) { f() }
@@ -172,15 +200,15 @@ func runC17(e *Env) {
 			reg(func() { router.StaticFS(regPrefix, http.Dir(rootSpelling)) })
 		default:
 			staticFileTarget = pick(r, []string{"c.txt", "a.css", "sub/b.js"})
-			target := filepath.Join(tree.Root, filepath.FromSlash(staticFileTarget))
-			if rootSpelling != tree.Root {
-				target = filepath.FromSlash(staticFileTarget) // relative to the working directory
+			target := filepath.Join(rootAbs, filepath.FromSlash(staticFileTarget))
+			if rootSpelling != rootAbs {
+				target = filepath.FromSlash(relDir + staticFileTarget) // relative to the working directory
 			}
 			reg(func() { router.StaticFile(regPrefix+"/file", target) })
 		}
 		var cur string
 		t.Describe(func() any {
-			return map[string]any{"handler": kind, "prefix": prefix, "exts": exts, "UseEncodedPath": encoded, "StrictLastSlash": strict, "root": tree.Root, "root_spelled_as": rootSpelling, "registered_in_group": inGroup, "request": cur}
+			return map[string]any{"handler": kind, "prefix": prefix, "exts": exts, "UseEncodedPath": encoded, "StrictLastSlash": strict, "root": rootAbs, "root_spelled_as": rootSpelling, "registered_in_group": inGroup, "request": cur}
 		})
 		t.AutoSample()
 		for i := 0; i < 12; i++ {
@@ -229,7 +257,7 @@ func runC17(e *Env) {
 			status := rec.Status()
 			t.Tracef("%s -> status %d body %q", cur, status, truncate(body, 60))
 			if strings.Contains(body, c17Canary) {
-				t.Fail("outside-content-served", "%s on %s(%s, root %s): the response (status %d) contains bytes of a file outside the root: %q", cur, kind, prefix, tree.Root, status, truncate(body, 120))
+				t.Fail("outside-content-served", "%s on %s(%s, root %s): the response (status %d) contains bytes of a file outside the root: %q", cur, kind, prefix, rootAbs, status, truncate(body, 120))
 				return
 			}
 			if status == 200 {
@@ -241,7 +269,7 @@ func runC17(e *Env) {
 					}
 				}
 				isListing := strings.Contains(body, "<pre>")
-				if kind == "StaticFile" && req.Method != "HEAD" && body != tree.Inside[staticFileTarget] {
+				if kind == "StaticFile" && req.Method != "HEAD" && body != inside[staticFileTarget] {
 					t.Fail("staticfile-serves-other-content", "%s: StaticFile is configured for %q only, but answered 200 with %q", cur, staticFileTarget, truncate(body, 120))
 					return
 				}
